@@ -1206,11 +1206,29 @@ func (s *ledgerSim) opForge() {
 	var txns []model.Txn
 	ntx := 1 + t.Pick("forge-ntx", 6, 3, 1)
 	for i := 0; i < ntx; i++ {
-		switch t.Pick("forge-txn-src", 5, 3, 2, 1, 2) {
+		src := t.Pick("forge-txn-src", 5, 3, 2, 1, 2)
+		if i == 0 && s.w.hasOverflowed(m) && t.Chance("forge-prefers-overflowed", 1, 2) {
+			src = 4 // such outputs are rare: when one exists, half of the forged blocks use it
+		}
+		switch src {
 		case 4:
 			// an input whose accrued hours have passed 2^64 (it counts as zero inside blocks) together with an
 			// ordinary one, in either order, with output hours at and around what the ordinary input alone gives
 			if tx, ok := s.w.mkOverflowCombo(m); ok {
+				if t.Chance("combo-drops-overflowed-coins", 1, 3) && len(tx.In) == 2 {
+					// ... and pays out only what the ordinary input holds: the coins of the other input would vanish
+					var keep uint64
+					for _, in := range tx.In {
+						if _, over, _ := model.AccruedHours(m.Unspent[in], m.Head().Head.Time); !over {
+							keep = m.Unspent[in].Coins
+						}
+					}
+					if keep > 0 {
+						tx.Out = []model.Out{{Addr: tx.Out[0].Addr, Coins: keep, Hours: 0}}
+						s.w.sign(m, &tx)
+						c.Count("probe.overflow_combo_dropping_coins")
+					}
+				}
 				txns = append(txns, tx)
 				s.known = append(s.known, tx)
 				c.Count("probe.overflow_input_combined_with_ordinary_input")
@@ -1301,6 +1319,18 @@ func (s *ledgerSim) opForge() {
 		b.Head.Time = head.Time
 	case bmTimeHuge:
 		b.Head.Time = ^uint64(0)
+	case bmTimeHalf:
+		// a jump of just under 2^63 seconds (a later time, so a valid header): two of them take the chain's clock to the
+		// top of the 64-bit range, where differences of times no longer fit a signed integer
+		d := uint64(1)<<63 - 1 - t.Draw("bm-time-half", 1000)
+		if head.Time > ^uint64(0)-d {
+			b.Head.Time = ^uint64(0) - t.Draw("bm-time-top", 20)
+			if b.Head.Time <= head.Time {
+				b.Head.Time = head.Time + 1
+			}
+		} else {
+			b.Head.Time = head.Time + d
+		}
 	case bmSeq:
 		b.Head.BkSeq = []uint64{head.BkSeq, head.BkSeq + 2, 0, ^uint64(0)}[t.Pick("bm-seq", 1, 1, 1, 1)]
 	case bmFee:
